@@ -279,7 +279,7 @@ pub fn inject_faults(rng: &mut Rng, source: &str, faults: usize) -> String {
 /// A tree that is several hundred levels deep: a left-deep operator chain (the leftmost operand
 /// of n operands sits about n + 3 levels down), optionally inside nested calls.
 pub fn deep_source(rng: &mut Rng) -> String {
-    let n = rng.range(40, 420);
+    let n = rng.range(40, 300);
     let op = *rng.pick(&[" + ", " - ", " and ", "."]);
     let mut s = String::from("total = ");
     for i in 0..n {
